@@ -7,8 +7,10 @@ pub mod pipes;
 pub mod parsing;
 pub mod templates;
 pub mod cli;
+pub mod replay;
 
 pub fn dispatch(opts: &Opts) -> Report {
+    if let Some(f) = &opts.replay { return replay::run(opts, f); }
     match opts.prop.as_str() {
         "C06" => c06::run(opts),
         "C02" => parsing::c02(opts),
